@@ -21,13 +21,15 @@ from vlib import gen
 
 PID = "C11"
 GEN = []
-LEAN = ["Ymq.Props.C11"]
+LEAN = ["Ymq.Props.C11", "Ymq.Props.C11Walk"]
 AUDIT = "Ymq.Audit.C11"
 THEOREMS = ["Ymq.C11." + t for t in (
     "verify_sound combine_valid combine_undivisible unpack_pack normFactors_prod unpack_pack_verify "
     "pack_one_becomes_two add_inv history_inv cycles_valid try_factor_proper even_combination_square "
     "kernel_step_proper verify_false_negative doubles_disjoint_add doubles_disjoint pack_total add_no_panic "
-    "add_inv2 history_no_panic walk_root_max final_step_proper cycles_tail_even try_factor_unreduced_panics above_512_bits_counterexample").split()]
+    "add_inv2 history_no_panic walk_root_max final_step_proper cycles_tail_even try_factor_unreduced_panics above_512_bits_counterexample combine_double_eq_step walk_stack_eq_rec add_stack_eq_add "
+    "add_inv_stack history_inv_stack cycles_valid_stack doubles_disjoint_stack add_no_panic_stack_partial "
+    "history_no_panic_stack_partial").split()]
 PROFILES = ["release", "chk"]
 TIMEOUT = 60.0
 RULE = ("first, in both tiers, a deterministic boundary family: histories, verify, combine, try_factor and final_combine with n = p1*p2 of exactly 63, 64, 65, 127, "
@@ -44,13 +46,18 @@ RULE = ("first, in both tiers, a deterministic boundary family: histories, verif
 MODELLED = ["relations.rs Relation::verify, RelationSet::{new,add,add_cycle,combine,combine_single,combine_double,walk_doubles}, "
             "PackedRelation::{pack,unpack}, combine (chunked products), try_factor, exponent accumulation of final_step "
             "and final_step around the kernel solver (occurrence table, stable sort, relation filter, kernel loop) "
-            "(Ymq/Model/Relations.lean); maps as association lists in key order"]
+            "(Ymq/Model/Relations.lean); maps as association lists in key order",
+            "the explicit-stack formulation of walk_doubles / combine_double_step / combine_double / add as the code is since "
+            "fix e402536 (Ymq/Model/RelationsWalk.lean: WalkFrame, walk_frame, the while loop with the position in the four "
+            "loops, every assert/index a panic), K-compared with the code on every second history and on the chains"]
 UNMODELLED = ["bnum Uint/Int operators and num_integer::gcd are taken as Nat/Int arithmetic; the 1024-bit width is not modelled: "
               "for n <= 2^512 every product of two reduced operands is below 2^1024, above that bound the release build wraps "
               "(counter-witness above_512_bits_counterexample; the sieves only build stores with n*k < 2^508)",
-              "stack depth: the model is recursive with fuel, the code's walk_doubles keeps an explicit stack since fix e402536 "
-              "(before it a chain of ~8000 doubles overflowed the 8 MiB stack); chains of 8000..20000 links run on the real code "
-              "(O only), chains up to 500 links are also compared with the model",
+              "stack depth: since fix e402536 the code's walk_doubles keeps an explicit stack (before it a chain of ~8000 doubles "
+              "overflowed the 8 MiB stack); that formulation is modelled line by line (Model/RelationsWalk.lean) and proved to "
+              "compute exactly what the recursive model computes (walk_stack_eq_rec); the closed-form iteration bound of the "
+              "model's while loop is not proved (termination is); chains of 8000..12000 links run on the real code (O only), "
+              "chains up to 1000 (thorough 2000) links are compared with the stack model",
               "ZmodN operations inside relations::combine are taken as exact arithmetic modulo n (that is property C07)",
               "the kernel vectors handed to the final step are an input (kernel solvers are property C14)",
               "HashMap/BTreeMap/BTreeSet of std are taken to implement finite maps/sets with ordered iteration"]
@@ -1040,7 +1047,9 @@ CLAIM = ("For every modulus n <= 2^512 (the code's own limit: 8 packed words, 10
          "branch tag and the final store, recorded add histories and final_step calls of real siqs/mpqs/qs runs, and final_step on "
          "constructed relation sets (empty, all-trivial kernels, few/many dependencies, > 5000 columns = block Lanczos) with the real "
          "kernel handed to the model; a Python oracle re-checks every published relation, the final store and every returned divisor.")
-LEVEL_NOTE = ("Domain: n <= 2^512 for the store theorems (stated hypothesis; real stores have n*k < 2^508); add_no_panic excludes only u64 "
+LEVEL_NOTE = ("The store theorems are proved for the recursive formulation and transported to the explicit-stack model that mirrors "
+              "the code (history_inv_stack, cycles_valid_stack, doubles_disjoint_stack; history_no_panic_stack_partial leaves the "
+              "closed-form iteration bound unproved). Domain: n <= 2^512 for the store theorems (stated hypothesis; real stores have n*k < 2^508); add_no_panic excludes only u64 "
               "counter overflow; stack depth is outside the model (explicit stack in the code since fix e402536, exercised up to 20000 links). "
               "Trusted: Lean kernel (+propext, Classical.choice, Quot.sound); the model's correspondence to the Rust code (checked by "
               "differential runs, not proved); bnum/num_integer as Nat/Int arithmetic; std collections as ordered maps; Python integers.")
